@@ -1746,7 +1746,8 @@ func ExecGroupBy(query *Query, current []any) ([]any, error) {
 		item := grouped[key]
 		current := make(Map)
 		for innerKey, innerValue := range *key {
-			current[innerKey] = innerValue
+			// a qualified or nested grouping column (a.b) is read through the path a -> b
+			SetPath(current, innerKey, innerValue)
 		}
 		current["*"] = item
 		rs, err := ExecHaving(query, current)
@@ -1759,6 +1760,26 @@ func ExecGroupBy(query *Query, current []any) ([]any, error) {
 
 	}
 	return slice, nil
+}
+
+// Stores a value where the readers of a column name look for it: the name a.b
+// is read through the path a -> b, a quoted name is a single key
+func SetPath(row Map, name string, value any) {
+	if strings.ContainsAny(name, "'\"`") {
+		row[name] = value
+		return
+	}
+	parts := strings.Split(name, ".")
+	node := row
+	for _, part := range parts[:len(parts)-1] {
+		next, ok := node[part].(Map)
+		if !ok {
+			next = make(Map)
+			node[part] = next
+		}
+		node = next
+	}
+	node[parts[len(parts)-1]] = value
 }
 
 func ExecHaving(query *Query, current Map, opts ...ExprOption) (bool, error) {
